@@ -190,6 +190,44 @@ func (g *GenesisGen) Run(nOps int, caseIdx int) {
 	for i := 0; i < nOps; i++ {
 		step(i)
 	}
+	// chain 0 as a *relay* chain with a forwarded packet still in flight at export time: its
+	// forwarding commitment (written on receipt, no next-send counter of its own) must survive
+	if len(w.Chains) >= 3 {
+		c1, c2 := w.Chains[1], w.Chains[2]
+		if w.ClientLatest(c0, c2.ChainName) == 0 {
+			w.Connect(c0, c2)
+		}
+		if w.ClientLatest(c2, c0.ChainName) == 0 {
+			w.Connect(c2, c0)
+		}
+		if w.SetRules(c0, []string{"*,*,*"}) == nil {
+			var t *tpkt
+			if tg.mt {
+				if class := w.MtIssue(c1, 0); class != "" {
+					id, res := w.MtMint(c1, 0, class, "", 5, w.Acct(1, 1).String())
+					tg.mtAfterMint(c1, class, id, 5, res)
+					if res.Code == 0 {
+						t = tg.mtXfer(1, 1, class, id, w.Acct(2, 1).String(), c2.ChainName, c0.ChainName, 2)
+					}
+				}
+			} else {
+				cls, id := fmt.Sprintf("viazero%d", caseIdx), "tom"
+				if w.NftIssue(c1, 0, cls, false).Code == 0 {
+					tg.nftAfterMint(c1, cls, id, w.NftMint(c1, 0, cls, id, "uri", w.Acct(1, 1).String()))
+					t = tg.nftXfer(1, 1, cls, id, w.Acct(2, 1).String(), c2.ChainName, c0.ChainName)
+				}
+			}
+			if t != nil {
+				h := w.Update(c0, c1)
+				ps := ProofSpec{Kind: "honest", Chain: c1.ChainName, Height: h, Key: "commit", Src: t.p.SourceChain, Dst: t.p.DestinationChain, Seq: t.p.Sequence}
+				res := tg.recvWithOracles(c0, 0, t.p, t.tok, ps, h)
+				g.stats["genesis.forwarded-in-flight."+ErrClass(res.Codespace, res.Code)]++
+				if res.Code == 0 {
+					t.recvOn[c0.ChainName] = true
+				}
+			}
+		}
+	}
 	// let the clients of chain 0 see recent heights of the other chains (many consensus states)
 	for _, q := range w.Chains[1:] {
 		if w.ClientLatest(c0, q.ChainName) > 0 {
